@@ -104,7 +104,12 @@ func C14(args []string) error {
 			return
 		}
 		v := lookup(m.GetID())
-		resp := r.NewSearchDoneResponse(gldap.WithResponseCode(gldap.ResultSuccess))
+		// controls travel on failed searches as well as on successful ones
+		code := gldap.ResultSuccess
+		if (m.GetID()/2)%2 == 1 {
+			code = gldap.ResultSizeLimitExceeded
+		}
+		resp := r.NewSearchDoneResponse(gldap.WithResponseCode(code))
 		if v != nil {
 			if cs, err := sym.buildAllReuse(pool, 2000+r.ConnectionID(), int(m.GetID()/2)+1, v.Cs); err == nil {
 				resp.SetControls(cs...)
@@ -112,11 +117,17 @@ func C14(args []string) error {
 		}
 		_ = w.Write(resp)
 	})
-	srv, err := hx.StartServer(mux, []gldap.Option{gldap.WithLogger(hx.NullLogger())}, nil)
+	srv0, err := hx.StartServer(mux, []gldap.Option{gldap.WithLogger(hx.NullLogger())}, nil)
 	if err != nil {
 		return err
 	}
-	defer srv.Stop(10 * time.Second)
+	defer srv0.Stop(10 * time.Second)
+	// a second server on the same mux logs at debug level: every other worker talks to it
+	srv1, err := hx.StartServer(mux, []gldap.Option{gldap.WithLogger(hx.DebugLogger())}, nil)
+	if err != nil {
+		return err
+	}
+	defer srv1.Stop(10 * time.Second)
 	rnd := hx.Rand(1414)
 	var rmu sync.Mutex
 	errs := make([]error, *par)
@@ -127,6 +138,10 @@ func C14(args []string) error {
 				c.Close()
 			}
 			var err error
+			srv := srv0
+			if (w+int(hx.Seed()))%2 == 1 {
+				srv = srv1
+			}
 			c, err = lx.Dial(srv.Addr, 5*time.Second)
 			return err
 		}
